@@ -320,7 +320,9 @@ class Ctx(object):
         ev = {"property_id": self.prop, "tier": self.tier, "seed": int(self.seed), "level": level,
               "coverage": cov, "assumptions": self.assumptions + self.notes,
               "wall_s": round(time.time() - self.t0, 2), "violations": int(nviol)}
-        d = os.path.join(VERIF, "evidence")
+        # replays and runs against scratch copies (mutants) never overwrite the registered evidence
+        scratch = self.replay or os.path.abspath(repo_root()) != "/repo"
+        d = os.path.join(VERIF, ".work", "evidence_scratch") if scratch else os.path.join(VERIF, "evidence")
         os.makedirs(d, exist_ok=True)
         with open(os.path.join(d, self.prop + ".json"), "w") as f:
             json.dump(ev, f, indent=1, sort_keys=True, default=_jsonable)
